@@ -265,6 +265,30 @@ func c09Breaker(c *Ctx, frozen bool, r *rand.Rand, rep int) {
 		var n atomic.Int64
 		var phase atomic.Int64
 		on, off := &countEffect{}, &countEffect{}
+		// on odd repetitions the side effects are real webhooks (custom headers and a form) delivered to a local receiver,
+		// one webhook object shared by both transitions: executions overlap while the breaker keeps cycling
+		var onFx, offFx cbreaker.SideEffect = on, off
+		if rep%2 == 1 {
+			hookSrv := newTestServer(http.HandlerFunc(func(w http.ResponseWriter, req *http.Request) {
+				_, _ = io.Copy(io.Discard, req.Body)
+				if req.URL.Path == "/tripped" {
+					on.n.Add(1)
+				} else {
+					off.n.Add(1)
+				}
+			}))
+			defer hookSrv.Close()
+			hdr := http.Header{"X-Hook-Token": {"secret"}, "Accept": {"*/*"}}
+			form := url.Values{"state": {"changed"}, "service": {"w3"}}
+			h1, e1 := cbreaker.NewWebhookSideEffect(cbreaker.Webhook{URL: hookSrv.URL + "/tripped", Method: "POST", Headers: hdr, Form: form})
+			h2, e2 := cbreaker.NewWebhookSideEffect(cbreaker.Webhook{URL: hookSrv.URL + "/standby", Method: "POST", Headers: hdr, Form: form})
+			if e1 != nil || e2 != nil {
+				c.Violation("w3/constructor", sfmt("webhook side effects: %v %v", e1, e2), nil)
+				return
+			}
+			onFx, offFx = h1, h2
+			c.Count("w3_webhook_runs", 1)
+		}
 		cb, err := cbreaker.New(http.HandlerFunc(func(w http.ResponseWriter, req *http.Request) {
 			k := n.Add(1)
 			if (k/200)%2 == 0 {
@@ -275,7 +299,7 @@ func c09Breaker(c *Ctx, frozen bool, r *rand.Rand, rep int) {
 			phase.Store(k)
 		}), "NetworkErrorRatio() > 0.5 || ResponseCodeRatio(500, 600, 0, 600) > 0.7 || LatencyAtQuantileMS(50.0) > 10000",
 			cbreaker.FallbackDuration(5*time.Millisecond), cbreaker.RecoveryDuration(5*time.Millisecond), cbreaker.CheckPeriod(time.Millisecond),
-			cbreaker.OnTripped(on), cbreaker.OnStandby(off), cbreaker.Logger(fmtLogger{}), cbreaker.Verbose(rep%2 == 1))
+			cbreaker.OnTripped(onFx), cbreaker.OnStandby(offFx), cbreaker.Logger(fmtLogger{}), cbreaker.Verbose(rep%2 == 1))
 		if err != nil {
 			c.Violation("w3/constructor", err.Error(), nil)
 			return
